@@ -9,7 +9,11 @@
    cares about.  Every well-typed, well-scoped DAG with at most N nodes over the chosen operators is
    produced exactly once (nodes are numbered in depth-first pre-order).
 
-   Types: "i" Int32, "b" Boolean, "a" Array[Int32], "s" Stream[Int32], "r" Struct{p:Int32,q:Int32}.
+   Types: "i" Int32, "b" Boolean, "a" Array[Int32], "s" Stream[Int32], "r" Struct{p:Int32,q:Int32},
+   "v" the element struct of a relational binding site (va.row_idx / sa.col_idx / row.idx).
+   A hole also records the scan scope (S, sg): scan aggregations are offered where one exists (below a
+   StreamAggScan query or a Site root), and a finished node can be shared between an aggregator argument
+   and a scan argument of the same site when its variables are bound in both scopes.
    Variables are typed by the first letter of their name: x.. c.. g  Int32, a.. arrays, r.. structs;
    a binder introduced by node number k is called <letter>k (uniq, what the expression API does:
    Env.get_uid()) or <letter>0 (not uniq: binders shadow each other and a node can be shared
